@@ -346,6 +346,11 @@ def run(prog, check):
              'the function can return normally although variables were recorded as not converged (lines %s)' % (
                  trace(seen2, bad_exit[0], g) if bad_exit else '?'),
              'an unstable or drifting system')
+    # ---- R5: the variables tested are all the variables that have a series (decorative ones included) ------------
+    from ._common import steady_state_covers_all_series
+    ok_c, why_c = steady_state_covers_all_series(loop, subst)
+    check.ob('C15.R5', '%s::checked-set-is-every-series' % ss.key, ok_c, '%s:%d' % (ss.module.rel, loop.lineno), why_c,
+             'equation reduction on (default) and a variable nothing else depends on (a balance, a ratio): its k=0 value must be the steady one too')
     # ---- R5: every variable that was checked and accepted is installed ------------------------------------
     all_install = [n for n in g.stmt_nodes() if n.kind == 'stmt' and isinstance(n.ast, ast.Assign) and
                    isinstance(n.ast.targets[0], ast.Subscript) and 'TimeSeries' in unparse(n.ast.targets[0]) and
@@ -371,6 +376,7 @@ def run(prog, check):
             i_, base_ = lastprev[v.id]
             v_ok = i_ == -1
         else:
+            v = resolve_expr(v, {k_: e_ for k_, e_ in subst.items() if k_ not in (lvn, copy_name)})
             v_ok = isinstance(v, ast.Subscript) and isinstance(v.slice, ast.UnaryOp) and unparse(v.slice) == '-1' and copy_name in unparse(v)
         key_ok = lvn is not None and unparse(n.ast.targets[0].value.slice) == lvn
         check.ob('C15.R5', '%s::installed-value-is-last-point' % ss.key, bool(v_ok and key_ok), '%s:%d' % (ss.module.rel, n.line),
